@@ -162,6 +162,8 @@ pub struct Child {
     pub victim_wake_cpoll: Option<(u64, u64)>,
     /// which unit the child belongs to (0 = the subject; used when two subjects coexist)
     pub is_unit: bool,
+    /// the future type has no destructor: its drop cannot be observed
+    pub no_drop_glue: bool,
 }
 
 pub struct TokRec {
@@ -440,6 +442,7 @@ impl World {
             last_cpoll: 0,
             victim_wake_cpoll: None,
             is_unit: false,
+            no_drop_glue: false,
         });
         id
     }
@@ -822,9 +825,35 @@ fn complete_child(w: &mut World, id: u32) {
 impl<O: Out> Future for ScriptFut<O> {
     type Output = O;
     fn poll(self: Pin<&mut Self>, cx: &mut Context<'_>) -> Poll<O> {
+        let addr = &*self as *const Self as usize;
+        script_poll::<O>(self.id, addr, cx)
+    }
+}
+
+/// A scripted future *without* drop glue (the crate may special-case such types, e.g. through
+/// `needs_drop`). Its drop cannot be observed; everything else is monitored as for `ScriptFut`.
+pub struct NdFut<O: Out> {
+    pub id: u32,
+    _pin: PhantomPinned,
+    _o: PhantomData<fn() -> O>,
+}
+impl<O: Out> NdFut<O> {
+    pub fn new(id: u32) -> Self {
+        w(|w| w.children[id as usize].no_drop_glue = true);
+        NdFut { id, _pin: PhantomPinned, _o: PhantomData }
+    }
+}
+impl<O: Out> Future for NdFut<O> {
+    type Output = O;
+    fn poll(self: Pin<&mut Self>, cx: &mut Context<'_>) -> Poll<O> {
+        let addr = &*self as *const Self as usize;
+        script_poll::<O>(self.id, addr, cx)
+    }
+}
+
+fn script_poll<O: Out>(id: u32, addr: usize, cx: &mut Context<'_>) -> Poll<O> {
+    {
         callback(|| {
-            let id = self.id;
-            let addr = &*self as *const Self as usize;
             let data = cx.waker().data() as usize;
             let ok = w(|w| child_poll_begin(w, id, addr, data));
             if !ok {
